@@ -25,6 +25,9 @@ class OrderLaws(Harness):
                for k in itertools.product("01", repeat=3)]
         # the side given by a truthy / falsy value that is not the bool singleton (an int, a numpy.bool_)
         out += [{"is_buy": b, "kinds": k, "flag": f} for b in (True, False) for k in ("000", "010") for f in ("int", "numpy")]
+        # kind (and price) rewritten after construction, before acceptance -- what a before-order hook such as the
+        # order-mistake shock does: the order ranks as what it is when it is accepted
+        out += [{"is_buy": b, "kinds": k, "rewritten": True} for b in (True, False) for k in ("000", "010", "100", "110")]
         return out
 
     def run(self, g, case):
@@ -40,8 +43,15 @@ class OrderLaws(Harness):
             p = None if mk else g.int(f"p{i}", 0, None)
             t = g.int(f"t{i}", 0, None)
             oid = g.int(f"id{i}", 0, None)
-            o = Order(agent_id=0, market_id=0, is_buy=side, kind=MARKET_ORDER if mk else LIMIT_ORDER,
-                      volume=1, price=p, placed_at=t, order_id=oid)
+            if case.get("rewritten"):
+                # constructed as the other kind, then rewritten
+                o = Order(agent_id=0, market_id=0, is_buy=side, kind=LIMIT_ORDER if mk else MARKET_ORDER,
+                          volume=1, price=(g.int(f"q{i}", 0, None) if mk else None), placed_at=t, order_id=oid)
+                o.kind = MARKET_ORDER if mk else LIMIT_ORDER
+                o.price = p
+            else:
+                o = Order(agent_id=0, market_id=0, is_buy=side, kind=MARKET_ORDER if mk else LIMIT_ORDER,
+                          volume=1, price=p, placed_at=t, order_id=oid)
             os_.append(o)
             recs.append({"is_buy": case["is_buy"], "is_market": mk, "price": p, "time": t, "id": oid})
         for i in range(3):
